@@ -19,6 +19,11 @@ var c08Forms = []EscForm{
 	{Name: "aa", Tpl: "{%aa= $V %}", Fn: 6, Itr: 2},
 	{Name: "|attrEscape", Tpl: "{%= $V|attrEscape %}", Fn: 6, Itr: 1},
 	{Name: "region-raw", Fn: 5, Itr: 1, Region: "htmlescape"},
+	{Name: "|he", Tpl: "{%= $V|he %}", Fn: 5, Itr: 1},
+	{Name: "|ae", Tpl: "{%= $V|ae %}", Fn: 6, Itr: 1},
+	{Name: "h-tight", Tpl: "{%h=$V%}", Fn: 5, Itr: 1},
+	{Name: "h<-default", Tpl: "{%h= nosuchvar|default($V) %}", Fn: 5, Itr: 1, MinIn: 1},
+	{Name: "a<-def", Tpl: "{%a= nosuchvar|def($V) %}", Fn: 6, Itr: 1, MinIn: 1},
 }
 
 var reHTMLAlphabet = regexp.MustCompile(`^([^<>"'&]|&lt;|&gt;|&quot;|&#39;|&amp;)*$`)
